@@ -109,7 +109,9 @@ def enum_loop(kind, blocking, depth, buflen=4, payload="a1b2c3d4"):
             return
         if phase == "wait":
             for p in POLL_ALPHA:
-                acc.append(sysl("poll", p))
+                # readiness is sometimes reported together with POLLHUP / POLLERR (peer closed with data still queued)
+                extra = {"v": (16, 8, 24)[len(acc) % 3]} if (p == "1" and len(acc) % 2 == 1) else {}
+                acc.append(sysl("poll", p, **extra))
                 if p == "1":
                     rec("data", acc)
                 elif p == "e%d" % E.EINTR:
@@ -329,7 +331,9 @@ def inject(rng, lines, p=0.15):
 def polls(rng, blocking):
     if not blocking:
         return []
-    return [sysl("poll", "e%d" % E.EINTR)] * rng.choice([0, 0, 0, 1, 3]) + [sysl("poll", rng.choice([1, 1, 1, 1, 0]))]
+    last = rng.choice([1, 1, 1, 1, 0])
+    extra = {"v": rng.choice([16, 8, 24, 32])} if (last == 1 and rng.random() < 0.3) else {}
+    return [sysl("poll", "e%d" % E.EINTR)] * rng.choice([0, 0, 0, 1, 3]) + [sysl("poll", last, **extra)]
 
 
 def random_sequence(rng, n, chk=None):
